@@ -6,6 +6,7 @@ import (
 	"os"
 	"strings"
 	"time"
+	"verifsim/parsersim"
 )
 
 func replayOther(sc, path, prop, kind, class string, raw json.RawMessage) int {
@@ -71,21 +72,25 @@ func replayOther(sc, path, prop, kind, class string, raw json.RawMessage) int {
 		}
 		resp, st, detail := pcall(w, rp.Request, 120*time.Second)
 		if rp.FreshSolo && st == callOK {
-			w2 := &worker{bin: pw.bin, env: env}
-			sr := *rp.Request
-			sr.Kind = "c18solo"
-			sresp, st2, _ := pcall(w2, &sr, 120*time.Second)
-			if w2.cmd != nil {
-				w2.in.Close()
-				w2.kill()
-			}
-			if st2 == callOK {
-				for ci := range resp.Digests {
-					for cj := range resp.Digests[ci] {
-						if ci < len(sresp.Digests) && cj < len(sresp.Digests[ci]) && resp.Digests[ci][cj] != sresp.Digests[ci][cj] {
-							fmt.Printf("VIOLATION property=%s replay=%s\n  reproduced: class=differs-from-fresh-solo client %d call %d returned something else in the concurrent run than alone in a fresh process\n", prop, path, ci, cj)
-							return 1
-						}
+			// every call alone in a process of its own, as in the check
+			for ci := range rp.Request.Clients {
+				for cj := range rp.Request.Clients[ci] {
+					w2 := &worker{bin: pw.bin, env: env}
+					sr := *rp.Request
+					sr.Kind = "c18solo"
+					sr.Clients = [][]parsersim.Call{{rp.Request.Clients[ci][cj]}}
+					sresp, st2, _ := pcall(w2, &sr, 120*time.Second)
+					if w2.cmd != nil {
+						w2.in.Close()
+						w2.kill()
+					}
+					if st2 != callOK || len(sresp.Digests) == 0 || len(sresp.Digests[0]) == 0 || ci >= len(resp.Digests) || cj >= len(resp.Digests[ci]) {
+						continue
+					}
+					x, y := resp.Digests[ci][cj], sresp.Digests[0][0]
+					if x != y && x != "capped" && y != "capped" && x != "lost" {
+						fmt.Printf("VIOLATION property=%s replay=%s\n  reproduced: class=differs-from-fresh-solo client %d call %d returned something else in the concurrent run than alone in a fresh process\n", prop, path, ci, cj)
+						return 1
 					}
 				}
 			}
